@@ -26,9 +26,12 @@ type Proto struct {
 	// CloseInAdd: while AddPipe is running, another goroutine closes the pipe (a peer that has already hung up is noticed by the
 	// protocol's own receiver at exactly this moment; a hook may have handed the pipe to a goroutine that closes it)
 	CloseInAdd bool
-	Events     []Event
-	SelfNum    uint16
-	PeerNum    uint16
+	// CloseEntered / CloseGate: see Close
+	CloseEntered chan struct{}
+	CloseGate    chan struct{}
+	Events       []Event
+	SelfNum      uint16
+	PeerNum      uint16
 }
 
 // New returns a mock protocol with pair-like numbers.
@@ -106,6 +109,13 @@ func (p *Proto) RemovePipe(pp mangos.ProtocolPipe) {
 
 // Close implements ProtocolBase.
 func (p *Proto) Close() error {
+	// a protocol whose Close takes its time (CloseEntered is signalled, then CloseGate is awaited): whatever arrives meanwhile
+	if p.CloseEntered != nil {
+		close(p.CloseEntered)
+	}
+	if p.CloseGate != nil {
+		<-p.CloseGate
+	}
 	p.mu.Lock()
 	defer p.mu.Unlock()
 	if p.closed {
